@@ -282,6 +282,9 @@ class FetchNoCrash(_c04.FetchShape):
                   "    .multiple = True\n}\n", "s": ["c { c = /a/b }\nc { }\n"], "env": [], "diff": 0, "kind": "plain"},
             {"m": "c\n  .optional = True\n  .multiple = True\n{\n  c = None\n    .type = path\n  !c = Auto\n    .type = strings\n"
                   "    .multiple = True\n}\n", "s": [], "env": [], "diff": 1, "kind": "plain"},
+            # a $(reference) whose dotted path runs through a DEFINITION (not a scope): 'Undefined variable', nothing else
+            {"m": "t = x\n  .type = str\nu = 1\n", "s": ["prefix = job7\nt = $(prefix.dir)/job.log\n"], "env": [], "diff": 0, "kind": "var"},
+            {"m": "s {\n  t = x\n}\n", "s": ["s {\n  p = 1\n  t = a$(p.q.r)b\n}\nw = $p.k\n"], "env": [], "diff": 0, "kind": "var"},
         ]
 
     def requests(self, case, impl_obs):
